@@ -464,6 +464,10 @@ func (st *c12Stats) long(n int, ctx string) {
 	if st.longBy == nil {
 		st.longBy = map[string]bool{}
 	}
+	if n == -2 { // a value of the class "domain word"
+		st.longBy["domain_word:"+ctx] = true
+		return
+	}
 	if n < 0 { // a value of the class "looks like an encoded message"
 		st.longBy["encoded_like:"+ctx] = true
 		return
@@ -483,6 +487,9 @@ func c12ScalarStats(fd protoreflect.FieldDescriptor, v C12Val, st *c12Stats, ctx
 	case protoreflect.StringKind:
 		if v.R <= 1 && c12EncSet[v.S] {
 			st.long(-1, ctx)
+		}
+		if v.R <= 1 && c12WordSet[v.S] {
+			st.long(-2, ctx)
 		}
 		n := len(v.S) // lengths without materialising the repetition
 		if v.R > 1 {
@@ -668,6 +675,7 @@ func c12Walk(md protoreflect.MessageDescriptor, tree *C12Msg, depth int, st *c12
 
 func c12Classes(origin string, tree *C12Msg, ty c12Type) ([]string, bool) {
 	c12EncInit()
+	c12WordsInit()
 	var st c12Stats
 	c12Walk(ty.md, tree, 0, &st)
 	if i := strings.IndexByte(origin, ':'); i >= 0 {
